@@ -15,6 +15,7 @@ open AwsVerif.Log AwsVerif.Gen.Log AwsVerif.Proofs.C14
 
 
 
+
 /-- **Line shape.**  When the buffer can hold the whole line and its terminator, the formatter
 succeeds, `amount_written` is the length of `prefix ++ message ++ "\n"`, those bytes are exactly that
 line (whatever the buffer held before), a NUL follows it inside the buffer, and with NUL-free inputs
@@ -114,6 +115,22 @@ theorem c14_writer_failure (p : Pipe) (c : Call) (line : Bytes) (hch : p.chan = 
     (pipelineLog p c).1.writeErrors = p.writeErrors + (if c.writeOk then 0 else 1) :=
   Thm.c14_writer_failure p c line hch hf
 
+/-! ## Log subjects -/
+
+/-- **Subject lookup** (`s_get_log_subject_info_by_id`, its integer skeleton regenerated from logging.c): for every
+slot table and every subject id the lookup never reads at or behind the end of a registered list, and it returns an
+entry exactly when the id lies below the subject space, its slot is registered and its index in the slot is below that
+list's count — then the entry at that index; in every other case the name is "Unknown". -/
+theorem c14_subject_lookup (slots : Slots) (subject : Nat) :
+    (∀ i c, subjectLookup slots subject ≠ .oob i c) ∧
+    (∀ n, subjectLookup slots subject = .entry n ↔
+      subject < 2 ^ AWS_LOG_SUBJECT_STRIDE_BITS * AWS_PACKAGE_SLOTS ∧
+      ∃ names, slots (subject / 2 ^ AWS_LOG_SUBJECT_STRIDE_BITS) = some names ∧
+        subject % 2 ^ AWS_LOG_SUBJECT_STRIDE_BITS < names.length ∧
+        names[subject % 2 ^ AWS_LOG_SUBJECT_STRIDE_BITS]? = some n) ∧
+    (subjectName slots subject).isSome = true :=
+  Thm.c14_subject_lookup slots subject
+
 /-! ## Background channel: every interleaving of senders, background thread, clean-up and spurious wake-ups
 
 `Bg.Reachable s`: `s` is reached from the initial state by any sequence of `Bg.Act`s — new sends by any
@@ -176,18 +193,20 @@ theorem c14_fg_safety (s : Fg.Sys) (hr : Fg.Reachable s) :
 
 /-! ## No-alloc logger, several threads -/
 
-/-- **No-alloc logger used by any number of threads**, every interleaving: the file holds exactly the lines the
-calls formatted, in the order of their `fwrite`s — none torn, replaced or duplicated (`file = logged.map some`,
-which rests on each call formatting into its own buffer); a thread's lines appear in its call order and no
-line twice; every call that has returned has its line in the file; at most one thread is between lock
-and unlock; and every line in the file carries the id of the thread whose call wrote it (the thread-id cache of
-the formatter is thread-local). -/
+/-- **No-alloc logger used by any number of threads**, every interleaving, any fwrite allowed to fail: the file holds
+exactly the lines the calls formatted whose fwrite succeeded, in the order of their `fwrite`s — none torn, replaced or
+duplicated (`file = logged.map some`, which rests on each call formatting into its own buffer); a thread's lines
+appear in its call order and no line twice; every call that has returned has its line in the file or had its write
+fail; at most one thread is between lock and unlock; every line in the file carries the id of the thread whose call
+wrote it (the thread-id cache of the formatter is thread-local); and whenever a call is in progress some thread can
+take a step — a failed write does not leave the logger's mutex locked, later calls go through. -/
 theorem c14_noalloc_threads (s : Na.Sys) (hr : Na.Reachable s) :
     s.file = s.logged.map some ∧
     s.logged.Pairwise (fun a b => a.1 = b.1 → a.2 < b.2) ∧ s.logged.Nodup ∧
-    (∀ l ∈ s.returned, l ∈ s.logged) ∧
+    (∀ l ∈ s.returned, l ∈ s.logged ∨ l ∈ s.failed) ∧
     (∀ t, nHolds (s.pcs t) = true ↔ s.mutex = some t) ∧
-    s.logged.map (·.1) = s.writers :=
+    s.logged.map (·.1) = s.writers ∧
+    ((∃ t, s.pcs t ≠ .idle) → ∃ t s', Na.step s (.thread t) = some s') :=
   Thm.c14_noalloc_threads s hr
 
 /-! hypotheses of the theorems above are satisfiable by non-trivial data -/
